@@ -30,6 +30,8 @@ TRUSTED = [
     'the translator harness/extract_exec.py (behavioural probes of every class x construction way x spelling)',
     'the translator harness/extract_execshape.py (every placement of a code block x every way a template object comes '
     'into being, flag off and on; the walker of the object graph and the skeleton of the streams)',
+    'modelled, not verified: Template._prepare_self/_prepare memoisation, LRUCache order (ExecMemo; tied by the stream '
+    'memo-history incl. the final cache keys in LRU order)',
 ]
 ASSUMPTIONS = [
     'a configuration is "disabled" for a template when the flag that governs its instantiation is off: the '
@@ -756,6 +758,60 @@ def compare_lru(pairs, res):
                                       'real': json.dumps(real, sort_keys=True)})
 
 
+def compare_memo(pairs, res):
+    """stream memo-history: the bounded-cache model WITH `_prepared` memoisation as state (`ExecMemo`:
+    template objects with an identity keep their prepared stream) against the real loader on the same
+    histories of load-and-render calls — per call the error, the output of the last call, the sentinel, and
+    the CONTENTS of the cache at the end (keys, most recently used first), in inline and in reload mode"""
+    sel = [(c, o) for c, o in pairs if c.get('cache') is not None and c['root']['kind'] == 'load'
+           and c['cfg'].get('loader') in G.REQS and o.get('cache') is not None]
+    lines = []
+    for case, _ in sel:
+        idx = dict((f['name'], i) for i, f in enumerate(case['files']))
+        fm = G.file_map(case)
+        files = proto.dec(render_line(case))[7]
+        hist = [[idx[n], _cap(fm[n]['syn'])] for n in case.get('history', [])]
+        hist.append([0, _cap(case['files'][0]['syn'])])
+        lines.append(proto.line(Atom('C14'), Atom('memohist'), case['cache'], B(case['cfg']['loader'] != 'off'),
+                                B(case['cfg']['auto_reload']), files, hist))
+    for (case, obs), ans in zip(sel, proto.run_lines(lines)):
+        if ans == 'unmodelled':
+            res.count('model:unmodelled (memo)')
+            continue
+        idx = dict((f['name'], i) for i, f in enumerate(case['files']))
+        real_errs = [_real_err(h[0], h[1] if h[0] != 'ok' else None, idx) for h in obs['history']]
+        real_errs.append(_real_err(obs['outcome'], obs['errfile'], idx))
+        real = {'errs': real_errs, 'sentinel': list(obs['sentinel']),
+                'out': [int(t[1:-1]) for t in obs['out']] if obs['outcome'] == 'ok' else [],
+                'cache': [[idx.get(k[0], -1), bool(k[1])] for k in obs['cache']]}
+        try:
+            m = proto.dec(ans)
+            model = {'errs': [_model_err(st[0]) for st in m[0]], 'sentinel': [int(x) for x in m[1]],
+                     'out': [int(x) for x in m[0][-1][1]] if _model_err(m[0][-1][0]) == 'ok' else [],
+                     'cache': [[int(e[0]), e[1] == 'T'] for e in m[2]]}
+            nprep = sum(1 for e in m[2] if e[2] == 'T')
+        except Exception:  # noqa
+            model, nprep = {'bad-answer': ans[:200]}, 0
+        if 'diverge' in model.get('errs', []):
+            res.count('model:diverge (memo)')
+            continue
+        res.streams['memo-history'] = res.streams.get('memo-history', 0) + 1
+        mode = 'reload' if case['cfg']['auto_reload'] else 'inline'
+        res.count('memo:%s:cache%d' % (mode, case['cache']))
+        res.count('memo:prepared objects in the cache at the end: %d' % min(nprep, 3))
+
+        def same_err(a, b):
+            if isinstance(a, list) and isinstance(b, list) and b[1] is None:
+                return a[0] == b[0]
+            return a == b
+        ok = ('errs' in model and len(model['errs']) == len(real['errs'])
+              and all(same_err(x, y) for x, y in zip(model['errs'], real['errs']))
+              and model['sentinel'] == real['sentinel'] and model['out'] == real['out'] and model['cache'] == real['cache'])
+        if not ok:
+            res.disagreements.append({'stream': 'memo-history', 'case': case, 'model': json.dumps(model, sort_keys=True),
+                                      'real': json.dumps(real, sort_keys=True)})
+
+
 # --------------------------------------------------------------------------
 # parse level: MarkupTemplate._parse / NewTextTemplate._parse vs their models
 
@@ -1018,6 +1074,7 @@ def shard(arg):
         compare_reach(pairs, res)
         compare_render(pairs, res)
         compare_lru(pairs, res)
+        compare_memo(pairs, res)
         compare_parse(rng, max(20, nrandom), res)
         compare_skeleton(rng, max(40, nrandom // 2), res)
         if idx == 0:
